@@ -9,7 +9,12 @@ def check(tier, seed, only=None):
     try:
         jobs = rolling.jobs(os.path.join(runner.scratch(), "rolling"))
     except overlay.OverlayError as e:
-        raise evidence.Undecided("extraction broke: %s" % e)
+        # the contract overlay no longer fits the text: the proofs are undecided; the bounded native checks below still run
+        rep.add_undecided("extraction broke: %s" % e)
+        jobs = []
+    if tier == "quick":
+        # _rolling_hash2_run takes about ten minutes on 16 cores (110 solver runs): thorough tier
+        jobs = [j for j in jobs if j.name != "rolling/run"]
     if only:
         jobs = [j for j in jobs if any(s in j.name for s in only.split(","))]
 
@@ -31,8 +36,13 @@ def check(tier, seed, only=None):
             path = os.path.join(rep.replay_dir(), "roll_diff.txt")
             with open(path, "w") as f:
                 f.write("native/roll_diff.c on the real assembly from /repo\n$ " + d["cmd"] + "\n" + d["text"])
-            rep.add_violation("native/roll_diff:_rolling_hash2_run_until:contract",
-                              "assumed contract of the NASM scan loop violated on the real assembly: " + d["text"].split("\n")[0][:200], path, True)
+            first = d["text"].split("\n")[0][:220]
+            if first.startswith("E2E"):
+                rep.add_violation("native/roll_diff:isal_rolling_hash2_run:end_to_end",
+                                  "bounded end-to-end check, real code disagrees with the closed-form definition: " + first, path, True)
+            else:
+                rep.add_violation("native/roll_diff:_rolling_hash2_run_until:contract",
+                                  "assumed contract of the NASM scan loop violated on the real assembly: " + first, path, True)
     except Exception as e:
         rep.add_undecided("native rolling check could not be built/run: %s" % e)
     rep.assumptions.append("ASSUMED (NASM): _rolling_hash2_run_until_00/_04 satisfy the contract VF_C_RUN_UNTIL proved for the C loop; bounded native differential check attached")
